@@ -1,6 +1,6 @@
 #!/bin/sh
 # usage: sh checks/seedtest.sh <patch.diff> <Cxx> [<Cyy> ...]  — applies a seeded change to /repo, runs the quick checks, reverts.
-P="$1"; shift
+P="$(cd "$(dirname "$1")" && pwd)/$(basename "$1")"; shift
 cd /repo && git diff --quiet || { echo "/repo not clean"; exit 9; }
 git -C /repo apply "$P" || exit 9
 for c in "$@"; do
